@@ -172,7 +172,7 @@ def raw_tables(fn, root):
     return out, attrs
 
 
-def observe(c, names_now):
+def observe(c, names_now, gone=()):
     """everything read through the Cooler object c; a read that raises is recorded as its exception class"""
     def rd(fn):
         o, v = G.guarded(fn)
@@ -193,6 +193,14 @@ def observe(c, names_now):
         j = c.pixels(join=True)[:]
         return [[str(a), str(b_)] for a, b_ in zip(j["chrom1"], j["chrom2"])]
     obs["join"] = rd(joined)
+    # a name that no longer exists must not be accepted any more
+    def expect_error(fn):                 # (errors are the expected answer here: no collector run per error)
+        try:
+            return fn()
+        except Exception as e:  # noqa: BLE001
+            return G.exc_class(e)
+    obs["gone"] = {nm: [expect_error(lambda: [int(x) for x in c.extent(nm)]),
+                        expect_error(lambda: len(c.matrix(balance=False).fetch(nm)))] for nm in gone}
     for nm in names_now:
         obs["extent"][nm] = rd(lambda: [int(x) for x in c.extent(nm)])
         obs["matrix"][nm] = rd(lambda: [[int(x) for x in row] for row in c.matrix(balance=False).fetch(nm)])
@@ -204,6 +212,29 @@ def observe(c, names_now):
     return obs
 
 
+STORE_FORMS = ("path", "uri", "uri_noslash", "root_kw", "file_rw", "group_rw", "file_ro", "group_ro")
+RO_FORMS = ("file_ro", "group_ro")
+
+
+def open_cooler(fn, root, form, handles):
+    """a Cooler object backed in one of the ways the constructor accepts"""
+    import cooler
+    cs = G.comps(root)
+    if form == "path" and not cs:
+        return cooler.Cooler(fn)
+    if form in ("path", "uri"):
+        return cooler.Cooler(fn + "::/" + "/".join(cs))
+    if form == "uri_noslash":
+        return cooler.Cooler(fn + "::" + "/".join(cs)) if cs else cooler.Cooler(fn + "::/")
+    if form == "root_kw":
+        return cooler.Cooler(fn, root="/" + "/".join(cs))
+    h = h5py.File(fn, "r" if form in RO_FORMS else "r+")
+    handles.append(h)
+    if form in ("file_rw", "file_ro") and not cs:
+        return cooler.Cooler(h)                       # the File object itself
+    return cooler.Cooler(h["/" + "/".join(cs)])       # a Group of the (multi-collection) file
+
+
 def run_impl(d, k, c, maps, objs=None):
     """objs[i] = which Cooler object (all opened BEFORE the first renaming, so later ones hold stale cached
     names) issues the i-th rename_chroms; default: one object for the whole chain"""
@@ -211,7 +242,9 @@ def run_impl(d, k, c, maps, objs=None):
     fn, uri = build(d, k, c)
     before_tables, before_attrs = raw_tables(fn, c["root"])
     objs = list(objs) if objs else [0] * len(maps)
-    clrs = [cooler.Cooler(uri) for _ in range(max(objs + [0]) + 1)]
+    form = c.get("store") or "uri"
+    handles = []
+    clrs = [open_cooler(fn, c["root"], form, handles) for _ in range(max(objs + [0]) + 1)]
     clr = clrs[objs[-1]] if objs else clrs[0]
     sample = c.get("sample") or list(range(len(c["names"])))
     pre = observe(clrs[0], [c["names"][i] for i in sample])
@@ -228,12 +261,22 @@ def run_impl(d, k, c, maps, objs=None):
     for m in maps:
         names_now = apply_map(names_now, m)
     q_names = [names_now[i] for i in sample]
-    same = observe(clr, q_names) if outcome == "Ok" else None
+    gone = [x for x in (c["names"][i] for i in sample) if x not in names_now]
+    same = observe(clr, q_names, gone) if outcome == "Ok" else None
+    stale_names = None
+    if outcome != "Ok":
+        o9, v9 = G.guarded(lambda: [str(x) for x in clr.chromnames])
+        stale_names = v9 if o9 == "Ok" else o9
+    for h in handles:                      # the live handles are released before the file is read again by name
+        try:
+            h.close()
+        except Exception:  # noqa: BLE001
+            pass
     reopened = None
     if outcome == "Ok":
         o2, c2 = G.guarded(cooler.Cooler, uri)
         if o2 == "Ok":
-            reopened = observe(c2, q_names)
+            reopened = observe(c2, q_names, gone)
         else:
             outcome = "reopen:" + o2
     after_tables, after_attrs = raw_tables(fn, c["root"])
@@ -241,7 +284,8 @@ def run_impl(d, k, c, maps, objs=None):
     if o3 != "Ok":
         dump = "unreadable:" + o3
     return {"outcome": outcome, "pre": pre, "same": same, "reopened": reopened, "before": (before_tables, before_attrs),
-            "after": (after_tables, after_attrs), "dump": dump, "names_now": names_now, "after_call": after_call}
+            "after": (after_tables, after_attrs), "dump": dump, "names_now": names_now, "after_call": after_call,
+            "names_after_refusal": stale_names}
 
 
 # ------------------------------------------------------------------ oracle
@@ -259,6 +303,15 @@ def dense_block(c, lo, hi):
 #  enum->int size sweep keep it as a hard observable)
 def oracle(c, maps, r):
     bad = []
+    if c.get("store") in RO_FORMS and maps and any(maps):
+        # a Cooler wrapping a READ-ONLY handle: the renaming is refused and nothing changes
+        if r["outcome"] == "Ok":
+            bad.append({"what": "rename_chroms through a read-only handle did not refuse"})
+        if r["after"] != r["before"]:
+            bad.append({"what": "a refused rename (read-only handle) changed the file"})
+        if r["names_after_refusal"] not in (None, list(c["names"])):
+            bad.append({"what": "names on the object after a refused rename", "got": r["names_after_refusal"]})
+        return bad
     if r["outcome"] != "Ok":
         return [{"what": "rename_chroms raised", "outcome": r["outcome"]}]
     exp_names = r["names_now"]
@@ -281,6 +334,9 @@ def oracle(c, maps, r):
             bad.append({"what": f"bin labels ({tag} object)", "got": o["labels"][:12] if isinstance(o["labels"], list) else o["labels"]})
         if o["starts"] != [b[1] for b in c["bins"]] or o["ends"] != [b[2] for b in c["bins"]]:
             bad.append({"what": f"bin coordinates changed ({tag} object)"})
+        for nm, res in o.get("gone", {}).items():
+            if any(not isinstance(x, str) for x in res):
+                bad.append({"what": f"a name that was renamed away is still accepted ({tag} object)", "name": nm, "got": res})
         exp_join = [[new_of[lab_old[i]], new_of[lab_old[j]]] for i, j, _ in c["pixels"]]
         if o["join"] != exp_join:
             bad.append({"what": f"chromosome labels of pixels(join=True) ({tag} object)", "got": o["join"][:6], "expected": exp_join[:6]})
@@ -477,7 +533,9 @@ def history_pass(ctx, d, rng, tag):
     step[0] = "two groups created"
     make("/g1", X, "w")
     make("/g2", Y, "a")
-    cx, cy = cooler.Cooler(fn + "::/g1"), cooler.Cooler(fn + "::/g2")
+    hs = []
+    # one long-lived object wraps a live h5py Group of the multi-collection file, the other is opened by URI
+    cx, cy = open_cooler(fn, "/g1", "group_rw", hs), cooler.Cooler(fn + "::/g2")
     check()
     step[0] = "rename g1"
     rename(cx, "/g1", fresh_names("a", live["/g1"][1]))
@@ -496,6 +554,8 @@ def history_pass(ctx, d, rng, tag):
     if m != keep:
         ctx.fail({"history": step[0]}, {"what": "rename_chroms modified the map it was given", "got": m, "expected": keep}, None)
     check([("long-lived", "/g1", cx), ("long-lived", "/g2", cy)])
+    for h_ in hs:
+        h_.close()
     step[0] = "file overwritten: other chromosome names, other number of bins"
     make("/g1", Z, "w")
     if G.guarded(cooler.Cooler, fn + "::/g2")[0] == "Ok":
@@ -523,11 +583,15 @@ def run(ctx):
     d = str(ctx.tmp / "coolers")
     os.makedirs(d, exist_ok=True)
     cases = [(c, m, "corpus") for c, m in corpus()]
+    for form in STORE_FORMS:                       # every store form on the corpus cooler, root and nested
+        for c0, m0 in corpus()[2:4] + corpus()[8:10]:
+            cases.append((dict(c0, store=form), m0, "corpus-store"))
     for c, m, objs in stale_corpus():
         cases.append((dict(c, objs=objs), m, "corpus-stale"))
-    for _ in range(1200 if thorough else 260):
+    for _ in range(1200 if thorough else 215):
         c = gen_cooler(rng)
         maps = gen_maps(rng, c["names"])
+        c["store"] = rng.choice(["path", "uri", "uri_noslash", "root_kw", "file_rw", "group_rw", "file_rw", "group_rw", "file_ro", "group_ro"])
         kind = "random"
         if len(maps) >= 2 and rng.random() < 0.6:
             # the renamings are issued through different Cooler objects opened before the first one
@@ -547,15 +611,17 @@ def run(ctx):
     exprs = [model_expr(c, maps, r["before"]) for (c, maps, _), r in zip(cases, results)]
     vals = C.coq_eval(IMPORTS, exprs, shard=40, jobs=4, timeout=900, tmpdir=ctx.tmp / "model")
     for (c, maps, kind), r, v in zip(cases, results, vals):
-        case = {"cooler": {k_: c[k_] for k_ in ("names", "lengths", "bins", "pixels", "root", "enc")}, "maps": maps, "objs": c.get("objs")}
+        case = {"cooler": {k_: c.get(k_) for k_ in ("names", "lengths", "bins", "pixels", "root", "enc", "store")}, "maps": maps, "objs": c.get("objs")}
         changed = r["names_now"] != c["names"]
-        ctx.case(case, nontrivial=changed, kind=f"{kind}:{c['enc']}:{len(maps)}")
+        ctx.case(case, nontrivial=changed, kind=f"{kind}:{c['enc']}:{len(maps)}:{c.get('store', 'uri')}")
         for b in oracle(c, maps, r):
             ctx.fail(case, b, b.pop("sig", None))
         if v is None:
             ctx.disagree("model could not rename", case, r["outcome"], None)
             continue
         names, sizes, labels, extents, dump = v[1]
+        if c.get("store") in RO_FORMS and any(maps):
+            continue                                   # refused: nothing to compare with the renamed model
         if r["outcome"] != "Ok":
             ctx.disagree("outcome", case, r["outcome"], "Ok")
             continue
